@@ -28,7 +28,8 @@ def schedules(k):
 
 
 NAME_PANELS = {
-    2: [['v1', 'v1'], ['v1', 'v2'], ['x1', 'x1'], ['v1', 'x1'], ['n1', 'n1'], ['f3600', 'f3600'], ['v1', 'u'], ['f-7200', 'v1'], ['u0', 'u']],
+    2: [['v1', 'v1'], ['v1', 'v2'], ['x1', 'x1'], ['v1', 'x1'], ['n1', 'n1'], ['f3600', 'f3600'], ['v1', 'u'], ['f-7200', 'v1'], ['u0', 'u'],
+        ['f-86400', 'f86400'], ['f86399', 'f-86399'], ['f1', 'f-1']],
     3: [['v1', 'v1', 'v1'], ['v1', 'v1', 'v2'], ['v1', 'v2', 'v1'], ['x1', 'v1', 'x1'], ['n1', 'n1', 'v1'], ['v1', 'f3600', 'u'], ['f3600', 'f3600', 'v1'],
         ['x1', 'x1', 'x1'], ['v1', 'v2', 'v3'], ['u', 'u0', 'v1']],
     4: [['v1', 'v1', 'v1', 'v1'], ['v1', 'v1', 'v2', 'v2'], ['v1', 'x1', 'v1', 'x1'], ['v1', 'v2', 'f60', 'u'], ['n1', 'v1', 'n1', 'v1']],
@@ -245,6 +246,10 @@ def run_C19(chk):
     put(os.path.join(zdir, 'America/New_York'), shipped['America/New_York'])
     put(os.path.join(zdir, 'Lisbon'), shipped['Europe/Lisbon'])
     put(os.path.join(zdir, 'truncated'), shipped['America/New_York'][:100])
+    ny = shipped['America/New_York']
+    put(os.path.join(zdir, 'trunc-footer-1'), ny[:-1])          # footer without its final newline
+    put(os.path.join(zdir, 'trunc-footer-all'), ny[:ny.rfind(b'\n', 0, len(ny) - 1) + 1])   # only the newline that opens the footer
+    put(os.path.join(zdir, 'trunc-footer-mid'), ny[:-9])
     put(os.path.join(zdir, 'leap'), leap_file())
     put(os.path.join(zdir, 'empty'), b'')
     put(os.path.join(zdir, 'localtime'), shipped['Asia/Kathmandu'])
@@ -266,7 +271,7 @@ def run_C19(chk):
     tzs = [None, b'', b'X', b':X', b'localtime', b':localtime', b'No/Such', b'::X', b'America/New_York']
     lts = [None, os.path.join(root, 'lt').encode(), os.path.join(root, 'nope').encode()]
     names = [b'America/New_York', b'Lisbon', os.path.join(root, 'abs/Kolkata').encode(), b'file:Lisbon', b'file:' + os.path.join(root, 'abs/Kolkata').encode(),
-             b'', b'adir', b'truncated', b'leap', b'empty', b':Lisbon', b'UTC', b'UTC0', b'Fixed/UTC+05:30:00', b'Fixed/UTC+25:00:00', b'No/Such', b'file:', b'../zi/Lisbon',
+             b'', b'adir', b'truncated', b'trunc-footer-1', b'trunc-footer-all', b'trunc-footer-mid', b'leap', b'empty', b':Lisbon', b'UTC', b'UTC0', b'Fixed/UTC+05:30:00', b'Fixed/UTC+25:00:00', b'No/Such', b'file:', b'../zi/Lisbon',
              b'America/New_York\x00junk']
     lines = ['fsfile %s %s' % (hx(p), hx(d)) for p, d in files.items()]
     meta = [None] * len(lines)
@@ -314,7 +319,7 @@ def run_C19(chk):
             data = files.get(path)
             f = fingerprint(data) if data is not None else None
             # the independent reader accepts leap-second files and truncated ones differently: cctz must reject both
-            if data is not None and (data == leap_file() or len(data) < 44 or path.endswith(b'truncated')): f = None
+            if data is not None and (data == leap_file() or len(data) < 44 or b'trunc' in os.path.basename(path)): f = None
             if f is None: want_ok, want_name, want_fp = False, b'UTC', '0:555443 0:555443'
             else: want_ok, want_name, want_fp = True, name, f
         want = '%s %s %s' % (('L' if kind == 'local' else ('1' if want_ok else '0')), hx(want_name), want_fp)
